@@ -287,7 +287,7 @@ def check(ctx):
               "with one pair per channel and the same hole on both sides / params / nothing",
               "dropping the channel merge (or validating channels) delivers a different key set in Zod mode")
     want_zod = {
-        (True, True): r"^\{ \.\.\.result\.data, (?:⟦channel\.serializedParameterName⟧: params\.⟦channel\.serializedParameterName⟧(?:, )?)+\s*\}$",
+        (True, True): r"^\{ \.\.\.result\.data, (?:⟦channel\.serializedParameterName(?:\|property_key)?⟧: params(?:\.⟦channel\.serializedParameterName⟧|⟦channel\.serializedParameterName\|property_access⟧)(?:, )?)+\s*\}$",
         (True, False): r"^result\.data$",
         (False, True): r"^params$",
         (False, False): r"^$",
